@@ -362,6 +362,15 @@ func (b *Batch) setFlagNoErr(f RecordFlag, i int, j ...int) {
 	}
 }
 
+// nackAt marks the record at the PHYSICAL index idx of the batch (an index
+// into b.records, not into ActiveRecords) as nacked. Callers that nack several
+// records of one pass use it together with a single activeRecordIndices()
+// snapshot, see DestinationTask.Do.
+func (b *Batch) nackAt(idx int, err error) {
+	b.setFlagWithErrAt(RecordFlagNack, idx, err)
+	b.tainted = true
+}
+
 // setFlagWithErr sets the flag for the record at index i to f, and sets the
 // error for the record to err. If multiple errors are provided, they are
 // assigned to the records starting at index i. If an error is assigned to a
@@ -376,23 +385,28 @@ func (b *Batch) setFlagWithErr(f RecordFlag, i int, errs []error) {
 			// We have filtered records, so we need to use the active index.
 			idx = activeIndices[idx]
 		}
+		b.setFlagWithErrAt(f, idx, err)
+	}
+}
 
-		// Set the flag and error for this record.
-		b.recordStatuses[idx].Flag = f
-		b.recordStatuses[idx].Error = err
+// setFlagWithErrAt is setFlagWithErr for a single record addressed by its
+// physical index idx in the batch.
+func (b *Batch) setFlagWithErrAt(f RecordFlag, idx int, err error) {
+	// Set the flag and error for this record.
+	b.recordStatuses[idx].Flag = f
+	b.recordStatuses[idx].Error = err
 
-		// Handle split records when nacking.
-		if len(b.splitRecords) > 0 && f == RecordFlagNack {
-			// If the record was split, we need to set the error for all
-			// records in the split record, so they are all marked as nacked.
-			if _, ok := b.splitRecords[b.positions[idx].String()]; b.positions[idx] == nil || ok {
-				// This is a split record, we need to set the error for all
-				// records in the split record.
-				from, to := b.findSplitRecord(idx)
-				for j := from; j <= to; j++ {
-					b.recordStatuses[j].Flag = f
-					b.recordStatuses[j].Error = err
-				}
+	// Handle split records when nacking.
+	if len(b.splitRecords) > 0 && f == RecordFlagNack {
+		// If the record was split, we need to set the error for all
+		// records in the split record, so they are all marked as nacked.
+		if _, ok := b.splitRecords[b.positions[idx].String()]; b.positions[idx] == nil || ok {
+			// This is a split record, we need to set the error for all
+			// records in the split record.
+			from, to := b.findSplitRecord(idx)
+			for j := from; j <= to; j++ {
+				b.recordStatuses[j].Flag = f
+				b.recordStatuses[j].Error = err
 			}
 		}
 	}
